@@ -2,15 +2,20 @@
 
 A universe is a plain (JSON-able) description:
 
-  desc  = {'tns': str, 'classes': [CLS]}
+  desc  = {'tns': str, 'classes': [CLS], 'simples': [SIMPLE] (optional), 'methods': [cid] (optional)}
+  SIMPLE= {'ns': str, 'name': str, 'leaf': LEAF}      a named simple type (type_name / __namespace__)
   CLS   = {'ns': str, 'name': str, 'parent': int|None, 'fields': [FIELD]}
   FIELD = {'name': str, 'ty': TY, 'min': int, 'max': int|None (None = unbounded), 'nillable': bool,
            'kind': 'elem'|'attr', 'choice': str|None, 'default': VALUE|None}
   TY    = ['leaf', LEAF] | ['ref', cid] | ['arr', TY]
   LEAF  = {'base': BASE, 'facets': {name: VALUE | [VALUE] | int | str}}
+          a use of a named simple type carries in addition 'named': index into simples, 'own': the
+          facets of the second customisation step (possibly none), 'plain': True when the member is
+          the named type itself; 'facets' is then the effective (inherited + own) set
   VALUE = ['none'] | ['int', z] | ['text', s] | ['bool', b] | ['dec', 'sign digits exp' as str(Decimal)]
         | ['dbl', repr] | ['date', iso] | ['time', iso] | ['dt', iso] | ['dur', microseconds]
-        | ['uuid', s] | ['bytes', hex] | ['obj', cid, [VALUE]] | ['list', [VALUE]]
+        | ['uuid', s] | ['bytes', hex] | ['chunks', [hex], 'tuple'|'list'] (a ByteArray value given as a
+          sequence of chunks) | ['obj', cid, [VALUE]] | ['list', [VALUE]]
 
 Everything random comes from the rng passed in.  Nothing here looks at the schema Spyne
 generates: the reference predicates (leaf_conforms, ...) are written from the declared
@@ -29,7 +34,10 @@ INT_BASES = list(INT_BOUNDS)
 STR_BASES = ['string', 'anyURI']
 ORD_BASES = ['decimal', 'double', 'float', 'date', 'time', 'dateTime']
 PLAIN_BASES = ['boolean', 'duration', 'uuid', 'base64Binary']
+EXTRA_BASES = ['hexBinary', 'urlsafeBinary']     # ByteArray(encoding='hex' / 'urlsafe_base64'): direct oracle only
+BYTE_BASES = ['base64Binary'] + EXTRA_BASES
 ALL_BASES = INT_BASES + STR_BASES + ORD_BASES + PLAIN_BASES
+UUID_RE = re.compile(r'[0-9a-fA-F]{8}(-[0-9a-fA-F]{4}){3}-[0-9a-fA-F]{12}')
 
 # patterns on which Python's re (full match) and XSD regular expressions agree
 PATTERNS = ['[a-z]+', '[0-9]{3}', 'a|ab', '(x|y)*z', '[A-Z][a-z]*', 'ab?c', '.*']
@@ -73,7 +81,13 @@ def to_native_leaf(v):
         return uuid.UUID(v[1])
     if k == 'bytes':
         return bytes.fromhex(v[1])
+    if k == 'chunks':
+        return (tuple if v[2] == 'tuple' else list)(bytes.fromhex(c) for c in v[1])
     raise ValueError(v)
+
+
+def denoted_bytes(v):
+    return bytes.fromhex(v[1]) if v[0] == 'bytes' else b''.join(bytes.fromhex(c) for c in v[1])
 
 
 def canon_text(base, v):
@@ -110,9 +124,14 @@ def canon_text(base, v):
         return out + 'S'
     if k == 'uuid':
         return v[1]
-    if k == 'bytes':
+    if k in ('bytes', 'chunks'):
         import base64
-        return base64.b64encode(bytes.fromhex(v[1])).decode()
+        b = denoted_bytes(v)
+        if base == 'hexBinary':
+            return b.hex()
+        if base == 'urlsafeBinary':
+            return base64.urlsafe_b64encode(b).decode()
+        return base64.b64encode(b).decode()
     raise ValueError(v)
 
 
@@ -201,6 +220,8 @@ def leaf_conforms(leaf, v, publishable_only=False):
             return False
         if 'pattern' in fa and re.fullmatch(fa['pattern'], s) is None:
             return False
+    if base == 'uuid' and UUID_RE.fullmatch(v[1]) is None:
+        return False
     if 'values' in fa and fa['values']:
         if not any(same_value(v, w) for w in fa['values']):
             return False
@@ -212,8 +233,8 @@ def _around(rng, c, spread=3):
     return c + rng.randint(-spread, spread)
 
 
-def gen_leaf_type(rng, base=None, facet_p=0.7):
-    base = base or rng.choice(INT_BASES * 2 + STR_BASES * 3 + ORD_BASES * 2 + PLAIN_BASES)
+def gen_leaf_type(rng, base=None, facet_p=0.7, extra=False):
+    base = base or rng.choice(INT_BASES * 2 + STR_BASES * 3 + ORD_BASES * 2 + PLAIN_BASES + (EXTRA_BASES * 2 if extra else []))
     fa = {}
     if rng.random() >= facet_p:
         return {'base': base, 'facets': fa}
@@ -371,7 +392,7 @@ def _raw_leaf_value(rng, leaf):
         cands = [datetime.date(2020, 2, 29), datetime.date(1, 1, 1), datetime.date(9999, 12, 31), datetime.date(1999, 12, 31)]
         for a in anchors:
             d = datetime.date.fromisoformat(a[1])
-            cands += [d, d + datetime.timedelta(days=1), d - datetime.timedelta(days=1)] * 3
+            cands += [d, _shift(d, datetime.timedelta(days=1)), _shift(d, -datetime.timedelta(days=1))] * 3
         return ['date', rng.choice(cands).isoformat()]
     if base == 'time':
         cands = [datetime.time(0, 0, 0), datetime.time(23, 59, 59), datetime.time(12, 30, 15, 250000), datetime.time(1, 2, 3, 5)]
@@ -388,7 +409,7 @@ def _raw_leaf_value(rng, leaf):
                  datetime.datetime(2021, 6, 15, 12, 30, 15, 250000, tzinfo=Z), datetime.datetime(1970, 1, 1, 0, 0, 0, 5, tzinfo=Z)]
         for a in anchors:
             d = datetime.datetime.fromisoformat(a[1])
-            cands += [d, d + datetime.timedelta(seconds=1), d - datetime.timedelta(seconds=1)] * 3
+            cands += [d, _shift(d, datetime.timedelta(seconds=1)), _shift(d, -datetime.timedelta(seconds=1))] * 3
         return ['dt', rng.choice(cands).isoformat()]
     if base == 'boolean':
         return ['bool', rng.random() < 0.5]
@@ -396,10 +417,34 @@ def _raw_leaf_value(rng, leaf):
         return ['dur', rng.choice([0, 1, 5, 10 ** 6, 3600 * 10 ** 6, 86400 * 10 ** 6 + 250000, -10 ** 6, 90061 * 10 ** 6 + 7,
                                    -(86400 * 10 ** 6 * 3 + 5)])]
     if base == 'uuid':
-        return ['uuid', str(uuid.UUID(int=rng.getrandbits(128)))]
-    if base == 'base64Binary':
+        u = str(uuid.UUID(int=rng.getrandbits(128)))
+        if rng.random() < 0.35:           # near misses of the published pattern
+            u = rng.choice([u[:-1], u + '0', u.replace('-', '', 1), 'g' + u[1:], u[:8] + '_' + u[9:], '{' + u + '}', u.upper()])
+        return ['uuid', u]
+    if base in BYTE_BASES:
+        if rng.random() < 0.5:
+            return gen_chunks(rng)
         return ['bytes', bytes(rng.randrange(256) for _ in range(rng.choice([0, 1, 2, 3, 4, 7, 16]))).hex()]
     raise ValueError(base)
+
+
+def gen_chunks(rng):
+    """a ByteArray value as a sequence of chunks: lengths that are not multiples of 3 before the
+    last chunk, empty chunks, bytes whose base64 digits differ between the two alphabets"""
+    n = rng.randint(2, 4)
+    lens = [rng.choice([0, 1, 2, 3, 4, 5, 7, 8]) for _ in range(n)]
+    if rng.random() < 0.8:
+        lens[rng.randrange(n - 1)] = rng.choice([1, 2, 4, 5, 7])
+    pool = [0xfb, 0xff, 0xfe, 0x3e, 0x3f, 0x00] + list(b'abcdefghij')
+    return ['chunks', [bytes(rng.choice(pool) if rng.random() < 0.7 else rng.randrange(256) for _ in range(k)).hex() for k in lens],
+            rng.choice(['tuple', 'list'])]
+
+
+def _shift(d, delta):
+    try:
+        return d + delta
+    except OverflowError:
+        return d
 
 
 def gen_leaf_value(rng, leaf, want=True, tries=60):
@@ -409,7 +454,7 @@ def gen_leaf_value(rng, leaf, want=True, tries=60):
         v = _raw_leaf_value(rng, leaf)
         if v[0] == 'text' and not xml_ok_text(v[1]):
             continue
-        if v == ['bytes', '']:
+        if v[0] in ('bytes', 'chunks') and not denoted_bytes(v):
             continue                      # an empty byte string is written as an empty element (= None)
         if leaf_conforms(leaf, v) == want:
             return v
@@ -421,10 +466,87 @@ def leaf_satisfiable(rng, leaf):
 
 
 # ------------------------------------------------------------------ generation of universes
+NAMEABLE = INT_BASES + STR_BASES * 3 + ['decimal', 'decimal', 'double', 'date', 'time', 'dateTime']
+
+
+def gen_named_simple(rng, ns, name, base=None):
+    """a named simple type: at least one facet, satisfiable"""
+    for _ in range(60):
+        leaf = gen_leaf_type(rng, base or rng.choice(NAMEABLE), 1.0)
+        if leaf['facets'] and leaf_satisfiable(rng, leaf):
+            return {'ns': ns, 'name': name, 'leaf': leaf}
+    return {'ns': ns, 'name': name, 'leaf': {'base': 'string', 'facets': {'max_len': 10}}}
+
+
+def gen_own(rng, pleaf, none_p=0.4):
+    """the facets of a second customisation step on a named simple type: a narrowing of the
+    first step (XSD only admits restrictions), or nothing at all"""
+    base, fa = pleaf['base'], pleaf['facets']
+    if rng.random() < none_p:
+        return {}
+    if 'gt' in fa or 'lt' in fa:
+        # Spyne repeats the inherited facets in the derived step and libxml2 refuses a derived
+        # min/maxExclusive equal to the base's: known finding C06|compile|inherited-exclusive-bound
+        # (one witness in the corpus); the generated universes stay clear of it
+        return {}
+    own = {}
+    if 'values' in fa:
+        if len(fa['values']) > 1:
+            own['values'] = rng.sample(fa['values'], rng.randint(1, len(fa['values']) - 1))
+        return own
+    if base in STR_BASES:
+        lo, hi = fa.get('min_len', 0), fa.get('max_len')
+        if hi is None:
+            own['max_len'] = max(lo, 1) + rng.choice([0, 1, 3, 8])
+        elif hi >= max(lo, 1):
+            own['max_len'] = rng.randint(max(lo, 1), hi)
+        if rng.random() < 0.4:
+            top = own.get('max_len', hi)
+            m = rng.randint(lo, top if top is not None else lo + 2)
+            if m > 0:
+                own['min_len'] = m
+        return own
+    if 'total_digits' in fa:
+        own['total_digits'] = rng.randint(max(1, fa.get('fraction_digits', 0)), fa['total_digits'])
+        return own
+    if base in INT_BOUNDS or base in ORD_BASES:
+        for side, keys in (('lo', ('ge', 'gt')), ('hi', ('le', 'lt'))):
+            if rng.random() < 0.6:
+                v = gen_leaf_value(rng, {'base': base, 'facets': dict(fa, **own)}, True)
+                if v is None or (v[0] == 'dbl' and v[1] in ('inf', '-inf', 'nan')):
+                    continue
+                have = [k for k in keys if k in fa]
+                own[have[0] if have else rng.choice(keys)] = v       # the same key tightened, or a bound on an open side
+        return own
+    return own
+
+
+def use_named(rng, simples, sid, plain_p=0.3):
+    """a use of named simple type sid as the type of a member"""
+    p = simples[sid]['leaf']
+    own = gen_own(rng, p)
+    merged = dict(p['facets'], **own)
+    if own and not leaf_satisfiable(rng, {'base': p['base'], 'facets': merged}):
+        own, merged = {}, dict(p['facets'])
+    return {'base': p['base'], 'facets': merged, 'named': sid, 'own': own, 'plain': (not own) and rng.random() < plain_p}
+
+
+def settle_plain(f):
+    """the named type itself can only stand where the member changes nothing: otherwise it is a
+    second customisation step without facets"""
+    t = f['ty']
+    while t[0] == 'arr':
+        t = t[1]
+    if t[0] == 'leaf' and t[1].get('plain') and f['ty'][0] == 'leaf':
+        if f['min'] != 0 or not f['nillable'] or f['max'] != 1 or f.get('default') is not None or f.get('choice'):
+            t[1]['plain'] = False
+
+
 def gen_universe(rng, n_classes=4, max_fields=4, namespaces=('urn:t',), bases=None, facet_p=0.7,
                  allow_attr=True, allow_arrays=True, allow_inherit=True, allow_multi=True, allow_choice=True,
-                 allow_default=True, tns='urn:tns'):
+                 allow_default=True, tns='urn:tns', named=False, extra=False):
     classes = []
+    simples = [gen_named_simple(rng, rng.choice(namespaces), 'S%d' % k) for k in range(rng.randint(1, 3))] if named else []
     for i in range(n_classes):
         parent = None
         if allow_inherit and i > 0 and rng.random() < 0.35:
@@ -438,12 +560,15 @@ def gen_universe(rng, n_classes=4, max_fields=4, namespaces=('urn:t',), bases=No
             r = rng.random()
             if r < 0.65 or i == 0:
                 leaf = None
-                for _ in range(20):
-                    leaf = gen_leaf_type(rng, rng.choice(bases) if bases else None, facet_p)
-                    if leaf_satisfiable(rng, leaf):
-                        break
+                if simples and rng.random() < 0.35:
+                    leaf = use_named(rng, simples, rng.randrange(len(simples)))
                 else:
-                    leaf = {'base': leaf['base'], 'facets': {}}
+                    for _ in range(20):
+                        leaf = gen_leaf_type(rng, rng.choice(bases) if bases else None, facet_p, extra)
+                        if leaf_satisfiable(rng, leaf):
+                            break
+                    else:
+                        leaf = {'base': leaf['base'], 'facets': {}}
                 ty = ['leaf', leaf]
             else:
                 ty = ['ref', rng.randrange(i)]
@@ -459,7 +584,7 @@ def gen_universe(rng, n_classes=4, max_fields=4, namespaces=('urn:t',), bases=No
                 f['min'] = rng.choice([0, 0, 1, 2])
                 if f['max'] is not None:
                     f['min'] = min(f['min'], f['max'])
-            elif allow_default and ty[0] == 'leaf' and r < 0.58 and ty[1]['base'] not in ('base64Binary',):
+            elif allow_default and ty[0] == 'leaf' and r < 0.58 and ty[1]['base'] not in BYTE_BASES:
                 dv = gen_leaf_value(rng, ty[1], True)
                 if dv is not None and not (dv[0] == 'dbl' and dv[1] in ('inf', '-inf', 'nan')) \
                         and not (dv[0] == 'dec' and 'E' in str(D(dv[1]))):
@@ -472,9 +597,93 @@ def gen_universe(rng, n_classes=4, max_fields=4, namespaces=('urn:t',), bases=No
                 f['min'] = 0
             if not f['choice']:
                 group = None              # groups are contiguous runs of members
+            settle_plain(f)
             fields.append(f)
         classes.append({'ns': ns, 'name': 'K%d' % i, 'parent': parent, 'fields': fields})
+    if simples:
+        return {'tns': tns, 'classes': classes, 'simples': simples}
     return {'tns': tns, 'classes': classes}
+
+
+# one universe per kind of reference from namespace A to namespace B, the reference being the
+# only one between the two (so that nothing else makes the schema of A import B)
+XNS_KINDS = ['simple-base', 'simple-nofacet', 'simple-plain', 'class-member', 'class-multi', 'complex-base',
+             'array-class', 'array-simple', 'array-simple-base', 'attr-plain', 'attr-base', 'attr-nofacet']
+
+
+def gen_xns_universe(rng, kind, tns='urn:tns'):
+    A, B = 'urn:xa', 'urn:xb'
+
+    def fld(name, ty, mn=0, mx=1, nillable=True, kind='elem'):
+        return {'name': name, 'ty': ty, 'min': mn, 'max': mx, 'nillable': nillable, 'kind': kind, 'choice': None, 'default': None}
+
+    def local(name):
+        for _ in range(20):
+            leaf = gen_leaf_type(rng, rng.choice(INT_BASES + STR_BASES * 2 + ['decimal', 'boolean', 'date']), 0.6)
+            if leaf_satisfiable(rng, leaf):
+                break
+        else:
+            leaf = {'base': 'string', 'facets': {}}
+        return fld(name, ['leaf', leaf], rng.choice([0, 1]), 1, rng.random() < 0.5)
+
+    def with_own():
+        for _ in range(40):
+            s0 = gen_named_simple(rng, B, 'S0', rng.choice(['string', 'string', 'anyURI', 'integer', 'unsignedByte', 'long', 'decimal', 'date']))
+            own = gen_own(rng, s0['leaf'], 0.0)
+            if own and leaf_satisfiable(rng, {'base': s0['leaf']['base'], 'facets': dict(s0['leaf']['facets'], **own)}):
+                return s0, own
+        return {'ns': B, 'name': 'S0', 'leaf': {'base': 'string', 'facets': {'max_len': 10}}}, {'max_len': 4}
+
+    s0, own = with_own()
+    simples = [s0]
+    P = s0['leaf']
+
+    def named(o, plain=False):
+        return ['leaf', {'base': P['base'], 'facets': dict(P['facets'], **o), 'named': 0, 'own': dict(o), 'plain': plain}]
+
+    classes = []
+    needs_class = kind in ('class-member', 'class-multi', 'complex-base', 'array-class')
+    k0 = None
+    if needs_class or rng.random() < 0.5:
+        f0 = [local('p0')]
+        if rng.random() < 0.5:
+            f0.append(fld('p1', named({}, True)))          # S0 used inside its own namespace
+        classes.append({'ns': B, 'name': 'K0', 'parent': None, 'fields': f0})
+        k0 = 0
+    parent = None
+    req = rng.choice([0, 1])
+    if kind == 'simple-base':
+        the = fld('r', named(own), req, 1, rng.random() < 0.5)
+    elif kind == 'simple-nofacet':
+        the = fld('r', named({}), 1, 1, rng.random() < 0.5)
+    elif kind == 'simple-plain':
+        the = fld('r', named({}, True))
+    elif kind == 'class-member':
+        the = fld('r', ['ref', k0], req, 1, rng.random() < 0.5)
+    elif kind == 'class-multi':
+        the = fld('r', ['ref', k0], req, rng.choice([None, 3]), rng.random() < 0.5)
+    elif kind == 'complex-base':
+        the, parent = None, k0
+    elif kind == 'array-class':
+        the = fld('r', ['arr', ['ref', k0]], req, 1, rng.random() < 0.5)
+    elif kind == 'array-simple':
+        the = fld('r', ['arr', named({}, True)], req, 1, rng.random() < 0.5)
+    elif kind == 'array-simple-base':
+        the = fld('r', ['arr', named(own)], req, 1, rng.random() < 0.5)
+    elif kind == 'attr-plain':
+        the = fld('r', named({}, True), kind='attr')
+    elif kind == 'attr-base':
+        the = fld('r', named(own), req, 1, True, 'attr')
+    elif kind == 'attr-nofacet':
+        the = fld('r', named({}), 1, 1, True, 'attr')
+    else:
+        raise ValueError(kind)
+    fields = [local('q0')] + ([the] if the is not None else []) + ([local('q1')] if rng.random() < 0.5 else [])
+    classes.append({'ns': A, 'name': 'K1', 'parent': parent, 'fields': fields})
+    out = {'tns': tns, 'classes': classes, 'simples': simples}
+    if k0 is not None and rng.random() < 0.6:
+        out['methods'] = [1]              # no operation on K0: namespace B is reached through A only
+    return out
 
 
 def flat_fields(desc, cid):
@@ -501,6 +710,10 @@ def spyne_leaf(leaf):
          'unsignedShort': P.UnsignedInteger16, 'unsignedByte': P.UnsignedInteger8, 'string': P.Unicode, 'anyURI': P.AnyUri,
          'decimal': P.Decimal, 'double': P.Double, 'float': P.Float, 'date': P.Date, 'time': P.Time, 'dateTime': P.DateTime,
          'boolean': P.Boolean, 'duration': P.Duration, 'uuid': P.Uuid, 'base64Binary': ByteArray}
+    if leaf['base'] == 'hexBinary':
+        return ByteArray(encoding='hex')
+    if leaf['base'] == 'urlsafeBinary':
+        return ByteArray(encoding='urlsafe_base64')
     return m[leaf['base']]
 
 
@@ -521,7 +734,17 @@ def build_spyne(desc):
     from spyne.model.complex import ComplexModel, ComplexModelMeta, Array, XmlAttribute
     out = []
 
+    simples = []
+    for sd in desc.get('simples', []):
+        k2 = dict(leaf_kwargs(sd['leaf']), type_name=sd['name'], __namespace__=sd['ns'])
+        simples.append(spyne_leaf(sd['leaf']).customize(**k2))
+
     def ty_of(ty, kw):
+        if ty[0] == 'leaf' and 'named' in ty[1]:
+            k2 = dict(leaf_kwargs({'facets': ty[1]['own']}))
+            if not ty[1].get('plain'):
+                k2.update(kw)
+            return simples[ty[1]['named']].customize(**k2) if k2 else simples[ty[1]['named']]
         if ty[0] == 'leaf':
             k2 = dict(leaf_kwargs(ty[1]))
             k2.update(kw)
@@ -558,7 +781,8 @@ def build_service(desc, classes):
     from spyne import ServiceBase, rpc
     body = {}
     for i, cls in enumerate(classes):
-        body['m%d' % i] = _mk_method(i, cls)
+        if i in desc.get('methods', range(len(classes))):      # 'methods': the classes that get an operation (default: all)
+            body['m%d' % i] = _mk_method(i, cls)
     return type('S', (ServiceBase,), body)
 
 
@@ -982,6 +1206,8 @@ class Renderer(object):
 
     def stype(self, leaf, scls):
         """scls: the real (customised) Spyne class of the leaf"""
+        if 'named' in leaf or leaf['base'] not in G_BASE:
+            raise ValueError('outside the modelled universe: %r' % (leaf,))
         fa = leaf['facets']
         base = leaf['base']
         A = scls.Attributes
